@@ -53,7 +53,12 @@ func vAliases(names string) []string {
 
 // vTrees: depth <= 3, fan-out <= 2, aliases that are prefixes of each other, levels
 // with and without parameters, action-less commands, a version flag on tree 5.
+// vVersionString is what the version flag prints; tree 11 declares an empty one (a
+// build variable the linker did not fill in) - the flag still short-circuits.
+var vVersionString = "VERSION-1.2.3"
+
 func vTree(t int) (root *vLvl, version bool) {
+	vVersionString = "VERSION-1.2.3"
 	switch t {
 	case 0:
 		root = &vLvl{names: "app", spec: "[-f] [-n] [X]", action: true, intOpt: true}
@@ -86,6 +91,11 @@ func vTree(t int) (root *vLvl, version bool) {
 		root = &vLvl{names: "app", spec: "[-f]", action: true, kids: []*vLvl{
 			{names: "ls -l --list", spec: "[X]", action: true},
 			{names: "rm", spec: "[-f] X", action: true}}}
+	case 11:
+		// tree 5 with an empty version string
+		root, version = vTree(5)
+		vVersionString = ""
+		return
 	case 9:
 		// a command name may contain a comma: names are separated by blanks only
 		root = &vLvl{names: "app", spec: "[-f]", action: true, kids: []*vLvl{
@@ -144,6 +154,10 @@ type vTreeRun struct {
 // (the root keeps the one under test): the rejecting command's own policy is followed.
 var vSubPolicy flag.ErrorHandling
 var vSubPolicySet bool
+
+// vLatePolicy: the root's policy is assigned after the sub-commands were declared; a
+// command follows the policy it was given (copied from its parent) at declaration.
+var vLatePolicy bool
 
 // vTreeEnv: every level's -f is backed by the environment variable TF (set or not by
 // the harness): routing, policies and help must not depend on where a value comes from.
@@ -227,8 +241,13 @@ func vRunTree(root *vLvl, version bool, policy flag.ErrorHandling, argv []string
 	}
 	app := App("app", rootDesc)
 	app.ErrorHandling = policy
+	if vLatePolicy {
+		// the sub-commands are declared while the root still has ContinueOnError (they copy
+		// it); the root's policy is assigned afterwards
+		app.ErrorHandling = flag.ContinueOnError
+	}
 	if version && onlyLevel == nil {
-		app.Version("v version", "VERSION-1.2.3")
+		app.Version("v version", vVersionString)
 	}
 	if onlyLevel != nil {
 		// the single-level application of one level: same declarations and spec, no children
@@ -236,6 +255,9 @@ func vRunTree(root *vLvl, version bool, policy flag.ErrorHandling, argv []string
 		vDeclare(app.Cmd, single, run)
 	} else {
 		vDeclare(app.Cmd, root, run)
+	}
+	if vLatePolicy {
+		app.ErrorHandling = policy
 	}
 	func() {
 		defer func() {
@@ -424,6 +446,40 @@ func vTreeArgv() []string {
 	return argv
 }
 
+// vNamedArgv: longer command lines over a small alphabet - every alias of the tree, the
+// flag in both spellings, a positional, `--` and an undeclared option - so that the
+// deepest commands are reached with arguments of their own.
+func vNamedArgv(root *vLvl, maxK int) []string {
+	names := []string{"-f", "--ff", "x", "--", "-z"}
+	var walk func(x *vLvl)
+	walk = func(x *vLvl) {
+		for _, k := range x.kids {
+			names = append(names, vAliases(k.names)...)
+			walk(k)
+		}
+	}
+	walk(root)
+	k := vChoice("K", maxK+1)
+	var argv []string
+	for i := 0; i < k; i++ {
+		c := vChoice("tok", len(names))
+		if names[c] == "x" {
+			argv = append(argv, vNondetString("pos", 1)) // a positional of one arbitrary byte (or empty)
+		} else {
+			argv = append(argv, names[c])
+		}
+	}
+	return argv
+}
+
+// vTreeArgvFor: raw byte tokens, or (param named=1) the small-alphabet generator.
+func vTreeArgvFor(root *vLvl) []string {
+	if vParamInt("named") == 1 {
+		return vNamedArgv(root, vParamInt("K"))
+	}
+	return vTreeArgv()
+}
+
 // vHelpTemplateArgv: tokens from {help tokens, --, aliases, version names, raw}
 func vHelpArgv(root *vLvl, maxK, l int) []string {
 	names := []string{"-h", "--help", "--", "-v", "--version", "-f"}
@@ -454,7 +510,7 @@ func vHelpArgv(root *vLvl, maxK, l int) []string {
 func H_route() {
 	vTreeEnvSetup()
 	root, version := vTree(vParamInt("tree"))
-	argv := vTreeArgv()
+	argv := vTreeArgvFor(root)
 	vNoHelp(argv)
 	if version {
 		vAssume(len(argv) == 0 || (argv[0] != "-v" && argv[0] != "--version"))
@@ -500,7 +556,7 @@ func H_route() {
 func H_policy() {
 	vTreeEnvSetup()
 	root, version := vTree(vParamInt("tree"))
-	argv := vTreeArgv()
+	argv := vTreeArgvFor(root)
 	vNoHelp(argv)
 	if version {
 		vAssume(len(argv) == 0 || (argv[0] != "-v" && argv[0] != "--version"))
@@ -509,10 +565,18 @@ func H_policy() {
 	vRefTree(root, "app", argv, true, version, exp)
 	vAssume(exp.kind != rkNoAction)
 	vSubPolicySet = false
-	if vParamInt("subpol") == 1 && exp.kind == rkReject && exp.cmd != root {
-		// sub-commands configured with ContinueOnError under a root with another policy:
-		// a rejection by a sub-command returns the error and neither exits nor panics
-		vSubPolicy, vSubPolicySet = flag.ContinueOnError, true
+	vLatePolicy = false
+	if vParamInt("subpol") >= 1 && exp.kind == rkReject && exp.cmd != root {
+		// sub-commands configured with ContinueOnError under a root with another policy
+		// (subpol 1: in their initializer; subpol 2: copied at declaration from a root whose
+		// policy is changed afterwards): a rejection by a sub-command returns the error and
+		// neither exits nor panics
+		if vParamInt("subpol") == 2 {
+			vLatePolicy = true
+			defer func() { vLatePolicy = false }()
+		} else {
+			vSubPolicy, vSubPolicySet = flag.ContinueOnError, true
+		}
 		for _, pol := range []flag.ErrorHandling{flag.ExitOnError, flag.PanicOnError} {
 			r := vRunTree(root, version, pol, argv, nil)
 			vAssert(len(r.log) == 0, "C07: an Action or interceptor ran on a rejected invocation")
@@ -629,7 +693,7 @@ func H_help() {
 	}
 	if exp.kind == rkVersion {
 		vCover("version")
-		vAssert(run.out == "VERSION-1.2.3\n", "C14: the version string is not what is printed")
+		vAssert(run.out == vVersionString+"\n", "C14: the version string is not what is printed")
 		return
 	}
 	vCover("help")
